@@ -13,7 +13,7 @@ import (
 
 // C10 — the transport fails open: no panic, no hang, errors only from the origin.
 func init() {
-	register(&Check{ID: "C10", Run: runC10, ShardDepth: 1, PreReplay: c10PreReplay, Bound: func(tier string) int {
+	register(&Check{ID: "C10", Run: runC10, ShardDepth: 1, LeaksMatter: true, PreReplay: c10PreReplay, Bound: func(tier string) int {
 		if tier == "thorough" {
 			return 2
 		}
